@@ -177,6 +177,31 @@ def _(I, s, pat):
     s = as_str(I, s); p = as_str(I, pat)
     if p.len > s.len: return False
     return bytes_eq(I, SliceRef(s.obj, s.start + s.len - p.len, p.len), p)
+@sstr("strip_suffix")
+def _(I, s, pat):
+    s = as_str(I, s)
+    if isinstance(pat, int) or is_sym(pat):
+        pb = encode_char(I, pat)
+    else:
+        pb = list(as_str(I, pat).items())
+    n = len(pb)
+    if n > s.len: return none()
+    tail = SliceRef(s.obj, s.start + s.len - n, n, True)
+    if I.W.branch(bytes_eq(I, tail, SliceRef(VecObj(pb, "tmp"), 0, n, True))):
+        return some(SliceRef(s.obj, s.start, s.len - n, True))
+    return none()
+@sstr("strip_prefix")
+def _(I, s, pat):
+    s = as_str(I, s)
+    if isinstance(pat, int) or is_sym(pat):
+        pb = encode_char(I, pat)
+    else:
+        pb = list(as_str(I, pat).items())
+    n = len(pb)
+    if n > s.len: return none()
+    if I.W.branch(bytes_eq(I, SliceRef(s.obj, s.start, n, True), SliceRef(VecObj(pb, "tmp"), 0, n, True))):
+        return some(SliceRef(s.obj, s.start + n, s.len - n, True))
+    return none()
 @sstr("eq_ignore_ascii_case")
 def _(I, a, b):
     a, b = as_str(I, a), as_str(I, b)
